@@ -1,6 +1,7 @@
 """A utility class used to manage Zorg files lives here."""
 
 from pathlib import Path
+import re
 from typing import NewType, Optional
 
 from zorg.domain.models import Note
@@ -49,8 +50,13 @@ class FileManager:
         """Removes {note} from its last known *.zo file."""
         zpage = c.prepend_zdir(self._zdir, note.file_path)
         assert note.zid is not None
+        # The note's first line is the one that has the ZID right after the
+        # prefix (and optional modify date). Other lines might mention it.
+        first_line_regex = re.compile(
+            rf"[-ox~<>] (P[0-9] )? *([0-9]{{6}} )?{re.escape(note.zid)}( |$)"
+        )
         for i, line in enumerate(zpage.read_text().split("\n")):
-            if f" {note.zid} " in line:
+            if first_line_regex.match(line):
                 start_idx = i
                 break
         else:
